@@ -302,6 +302,9 @@ fn check(c: &Case) -> Verdict {
       return v;
     }
     let want: Vec<RVal> = idx.iter().map(|i| RVal::S(f64b((i * 11) as f64))).collect();
+    // a one-term range is a 1x1 index matrix; indexing rejects those (the listed C03 / C04 / C18 finding single-element-index-rejected).
+    // The range itself is right — the rejection is the indexing's, which is C03's subject, not C15's
+    if terms.len() == 1 && matches!(&out, Outcome::Err(e) if e.starts_with("UnhandledFunctionArgumentIxes")) { v.label("index:one-term-range-rejected-by-indexing"); return v; }
     // a range used as an index fails for the same reasons as the range alone: key it by the same root cause
     let cause = root_cause(c, k, &terms, &es, &out);
     match observed {
